@@ -347,7 +347,8 @@ def build_image(im, image_id, resolved):
             if f["key"] in LINE_CONSTANTS:
                 ov[f["key"]] = baseline_value(f, const_salt)
         mode = im.get("line_mode") or "distinct"
-        salt = 100 * (image_id + 1) + (k if mode == "distinct" else 0)
+        # "steps": piecewise constant, the value changes at lines 4, 15, 1000, 1024 and 4096
+        salt = 100 * (image_id + 1) + (k if mode == "distinct" else sum(k >= c for c in (4, 15, 1000, 1024, 4096)) if mode == "steps" else 0)
         if mode == "drift":
             # consecutive lines differ by one unit of every wide numeric field (and 1 ms / 1 us)
             for f in rec.fields:
